@@ -40,7 +40,7 @@ def plan(tier):
 
 @st.composite
 def cases(draw):
-    recipe = draw(gen.problem_recipe(densities=(10, 10, 10, 6, 12), styles=True))
+    recipe = draw(gen.problem_recipe(densities=(10, 10, 10, 6, 12), styles=True, offsets=True))
     iters = st.one_of(st.sampled_from([1, 2, 3, 4, 5, 10]), st.sampled_from([200, 1000, 2000]),
                       st.sampled_from([200, 1000, 2000]), st.integers(3, 300))
     params = draw(gen.solver_params(recipe["n"], recipe["density"], iters, cheap=False))
